@@ -50,6 +50,7 @@ import (
 	"istio.io/istio/pkg/config/protocol"
 	"istio.io/istio/pkg/config/security"
 	"istio.io/istio/pkg/log"
+	"istio.io/istio/pkg/maps"
 	"istio.io/istio/pkg/proto"
 	"istio.io/istio/pkg/slices"
 	"istio.io/istio/pkg/util/hash"
@@ -210,7 +211,8 @@ func (configgen *ConfigGeneratorImpl) buildGatewayListeners(builder *ListenerBui
 	cs := builder.connectionSettings
 
 	listeners := make([]*listener.Listener, 0)
-	for _, ml := range mutableopts {
+	// in the order of the listener names: the LDS response must not depend on map iteration order
+	for _, ml := range maps.SeqStable(mutableopts) {
 		ml.mutable.Listener = buildGatewayListener(*ml.opts, ml.transport)
 
 		// Set listener-level buffer limit from ConnectionSettings.
